@@ -11,6 +11,7 @@ from engine.routeb import gotocc_cpp, CHECKS, STD, unwindset_from_loops, mirrore
 from engine.selftest import subst
 
 ID = "C09"
+USES_CPP = True   # adds the front-end assumption canaries (engine/frontend.py) to every run of this check
 
 MANIFEST = {
     "level_claimed": {
